@@ -1,6 +1,6 @@
 (* Lemmas for the multi-feature / history part of C10 (Model/ResolveHist.v against Spec/ResolveHistRule.v). *)
 From Coq Require Import List Bool String Arith Lia Permutation.
-Require Import MV.Model.Resolve MV.Spec.ResolveRule MV.Proofs.ResolveP MV.Model.ResolveHist MV.Spec.ResolveHistRule.
+Require Import MV.Model.Resolve MV.Spec.ResolveRule MV.Proofs.ResolveP MV.Proofs.ResolveNamesP MV.Model.ResolveHist MV.Spec.ResolveHistRule.
 Import ListNotations.
 Open Scope string_scope.
 Open Scope list_scope.
@@ -29,14 +29,20 @@ Lemma set_eqb_perm : forall a a' b b', Permutation a a' -> Permutation b b' -> s
 Proof. intros. unfold set_eqb. rewrite (subset_perm a a' b b'), (subset_perm b b' a a'); auto. Qed.
 
 Definition env_equiv (e e' : env) : Prop :=
-  Permutation (existing e) (existing e') /\ Permutation (available e) (available e').
+  Permutation (existing e) (existing e') /\ Permutation (available e) (available e') /\ (forall x, cname e x = cname e' x).
 
 Lemma filter_perm_ext : forall A (f g : A -> bool) l l', (forall x, f x = g x) -> Permutation l l' ->
   Permutation (filter f l) (filter g l').
 Proof. intros A f g l l' H P. rewrite (filter_ext f g H). apply filter_perm. exact P. Qed.
 
+Lemma existsb_ext_l : forall A (f g : A -> bool) l, (forall x, f x = g x) -> existsb f l = existsb g l.
+Proof. intros A f g l H. induction l as [|a l IH]; cbn; [reflexivity | rewrite H, IH; reflexivity]. Qed.
+
 Lemma api_set_equiv : forall e e' rq, env_equiv e e' -> Permutation (api_set e rq) (api_set e' rq).
-Proof. intros e e' rq [H _]. unfold api_set. destruct (api rq); [exact H | apply filter_perm; exact H]. Qed.
+Proof.
+  intros e e' rq [H [_ Hn]]. unfold api_set. destruct (api rq) as [|a l]; [exact H|]. apply filter_perm_ext; [|exact H].
+  intros x. unfold api_selects. apply existsb_ext_l. intros [n|y]; cbn; [rewrite Hn|]; reflexivity.
+Qed.
 
 Lemma usable_equiv : forall e e' rq, env_equiv e e' -> Permutation (usable e rq) (usable e' rq).
 Proof.
@@ -164,7 +170,7 @@ Proof.
   intros e rq rq' [H _]. unfold api_set. destruct (api rq) as [|a l].
   - apply Permutation_nil in H. rewrite H. reflexivity.
   - destruct (api rq') as [|a' l']; [apply Permutation_sym, Permutation_nil in H; discriminate|].
-    apply filter_ext. intros x. apply mem_perm. exact H.
+    apply filter_ext. intros x. unfold api_selects. apply existsb_perm. exact H.
 Qed.
 
 Lemma links_ok_req : forall rq rq' c, req_equiv rq rq' -> links_ok rq c = links_ok rq' c.
@@ -497,17 +503,17 @@ Proof.
 Qed.
 
 (* ================= 6. histories ================= *)
-Lemma env_with_equiv : forall ex ex' av av', Permutation ex ex' -> Permutation av av' ->
-  env_equiv (env_with ex av) (env_with ex' av').
+Lemma env_with_equiv : forall nm ex ex' av av', Permutation ex ex' -> Permutation av av' ->
+  env_equiv (env_with nm ex av) (env_with nm ex' av').
 Proof.
-  intros ex ex' av av' H1 H2. unfold env_equiv, env_with. cbn. split; [apply Permutation_map; exact H1|].
-  apply Permutation_map, filter_perm. exact H2.
+  intros nm ex ex' av av' H1 H2. unfold env_equiv, env_with. cbn. split; [apply Permutation_map; exact H1|].
+  split; [|reflexivity]. apply Permutation_map, filter_perm. exact H2.
 Qed.
 
-Lemma answer_equiv : forall w st st' rq, walk_ok w -> state_equiv st st' ->
-  routcome_equiv (answer w st rq) (request_outcome (env_of (p_fws st')) (p_groups st') rq).
+Lemma answer_equiv : forall nm w st st' rq, walk_ok w -> state_equiv st st' ->
+  routcome_equiv (answer nm w st rq) (request_outcome (env_of nm (p_fws st')) (p_groups st') rq).
 Proof.
-  intros w st st' rq [Hg [Hf Ha]] [Sg Sf]. unfold answer, env_of. apply request_outcome_equiv.
+  intros nm w st st' rq [Hg [Hf Ha]] [Sg Sf]. unfold answer, env_of. apply request_outcome_equiv.
   - eapply Permutation_trans; [apply Hg | exact Sg].
   - apply env_with_equiv; (eapply Permutation_trans; [|exact Sf]); [apply Hf | apply Ha].
 Qed.
@@ -517,27 +523,27 @@ Proof. intros. split; apply Permutation_refl. Qed.
 
 (* invariant of the fold: the state is exactly the classes defined so far, and every answer given so far is the one the
    specification lists *)
-Lemma run_history_inv : forall ws, (forall k, walk_ok (ws k)) -> forall ops st outs,
-  fst (fold_left (step ws) ops (st, outs)) = final_state st ops /\
-  exists outs', snd (fold_left (step ws) ops (st, outs)) = outs ++ outs' /\
-                Forall2 routcome_equiv outs' (spec_answers st ops).
+Lemma run_history_inv : forall nm ws, (forall k, walk_ok (ws k)) -> forall ops st outs,
+  fst (fold_left (step nm ws) ops (st, outs)) = final_state st ops /\
+  exists outs', snd (fold_left (step nm ws) ops (st, outs)) = outs ++ outs' /\
+                Forall2 routcome_equiv outs' (spec_answers nm st ops).
 Proof.
-  intros ws Hw ops. induction ops as [|o t IH]; intros st outs.
+  intros nm ws Hw ops. induction ops as [|o t IH]; intros st outs.
   - cbn. split; [reflexivity|]. exists []. rewrite app_nil_r. split; [reflexivity | constructor].
   - destruct o as [c|n|rq]; cbn [fold_left step fst snd final_state spec_answers define].
     + apply (IH _ outs).
     + apply (IH _ outs).
-    + destruct (IH st (outs ++ [answer (ws (List.length outs)) st rq])) as [F [outs' [E S]]].
-      split; [exact F|]. exists (answer (ws (List.length outs)) st rq :: outs'). split.
+    + destruct (IH st (outs ++ [answer nm (ws (List.length outs)) st rq])) as [F [outs' [E S]]].
+      split; [exact F|]. exists (answer nm (ws (List.length outs)) st rq :: outs'). split.
       * rewrite E, <- app_assoc. reflexivity.
       * constructor; [|exact S]. apply answer_equiv; [apply Hw | apply state_equiv_refl].
 Qed.
 
-Lemma history_invariant_l : forall ws, (forall k, walk_ok (ws k)) -> forall st ops,
-  fst (run_history ws st ops) = final_state st ops /\
-  Forall2 routcome_equiv (snd (run_history ws st ops)) (spec_answers st ops).
+Lemma history_invariant_l : forall nm ws, (forall k, walk_ok (ws k)) -> forall st ops,
+  fst (run_history nm ws st ops) = final_state st ops /\
+  Forall2 routcome_equiv (snd (run_history nm ws st ops)) (spec_answers nm st ops).
 Proof.
-  intros ws Hw st ops. unfold run_history. destruct (run_history_inv ws Hw ops st []) as [F [outs' [E S]]].
+  intros nm ws Hw st ops. unfold run_history. destruct (run_history_inv nm ws Hw ops st []) as [F [outs' [E S]]].
   split; [exact F|]. rewrite E. exact S.
 Qed.
 
@@ -582,32 +588,32 @@ Proof.
   - rewrite <- (fws_of_defs h1), <- (fws_of_defs h2). apply flat_map_perm. exact P.
 Qed.
 
-Lemma run_history_last : forall ws st h rq,
-  snd (run_history ws st (h ++ [Request rq])) =
-  snd (run_history ws st h) ++ [answer (ws (List.length (snd (run_history ws st h)))) (fst (run_history ws st h)) rq].
+Lemma run_history_last : forall nm ws st h rq,
+  snd (run_history nm ws st (h ++ [Request rq])) =
+  snd (run_history nm ws st h) ++ [answer nm (ws (List.length (snd (run_history nm ws st h)))) (fst (run_history nm ws st h)) rq].
 Proof. intros. unfold run_history. rewrite fold_left_app. reflexivity. Qed.
 
 (* history independence: the answer to a request depends only on which classes exist when it is made *)
-Lemma history_independent_l : forall ws ws', (forall k, walk_ok (ws k)) -> (forall k, walk_ok (ws' k)) ->
+Lemma history_independent_l : forall nm ws ws', (forall k, walk_ok (ws k)) -> (forall k, walk_ok (ws' k)) ->
   forall st h1 h2 rq, Permutation (defs h1) (defs h2) ->
-  exists a1 a2, last (snd (run_history ws st (h1 ++ [Request rq]))) (RRejected RDuplicate) = a1 /\
-                last (snd (run_history ws' st (h2 ++ [Request rq]))) (RRejected RDuplicate) = a2 /\
+  exists a1 a2, last (snd (run_history nm ws st (h1 ++ [Request rq]))) (RRejected RDuplicate) = a1 /\
+                last (snd (run_history nm ws' st (h2 ++ [Request rq]))) (RRejected RDuplicate) = a2 /\
                 routcome_equiv a1 a2 /\
-                routcome_equiv a1 (request_outcome (env_of (p_fws (final_state st h1))) (p_groups (final_state st h1)) rq).
+                routcome_equiv a1 (request_outcome (env_of nm (p_fws (final_state st h1))) (p_groups (final_state st h1)) rq).
 Proof.
-  intros ws ws' Hw Hw' st h1 h2 rq P. rewrite !run_history_last, !last_last.
-  destruct (history_invariant_l ws Hw st h1) as [F1 _]. destruct (history_invariant_l ws' Hw' st h2) as [F2 _].
+  intros nm ws ws' Hw Hw' st h1 h2 rq P. rewrite !run_history_last, !last_last.
+  destruct (history_invariant_l nm ws Hw st h1) as [F1 _]. destruct (history_invariant_l nm ws' Hw' st h2) as [F2 _].
   rewrite F1, F2. eexists. eexists. split; [reflexivity|]. split; [reflexivity|].
-  pose proof (answer_equiv (ws (List.length (snd (run_history ws st h1)))) (final_state st h1) (final_state st h1) rq
+  pose proof (answer_equiv nm (ws (List.length (snd (run_history nm ws st h1)))) (final_state st h1) (final_state st h1) rq
                 (Hw _) (state_equiv_refl _)) as A1.
-  pose proof (answer_equiv (ws' (List.length (snd (run_history ws' st h2)))) (final_state st h2) (final_state st h1) rq
+  pose proof (answer_equiv nm (ws' (List.length (snd (run_history nm ws' st h2)))) (final_state st h2) (final_state st h1) rq
                 (Hw' _)) as A2.
   split; [|exact A1]. eapply routcome_equiv_trans; [exact A1|]. apply routcome_equiv_sym, A2.
   destruct (final_state_perm st h1 h2 P) as [G F]. split; apply Permutation_sym; assumption.
 Qed.
 
 (* ================= 7. witnesses ================= *)
-Definition hw_e := {| existing := [0]; available := [0] |}.
+Definition hw_e := {| existing := [0]; available := [0]; cname := fun x => x |}.
 Definition hw_cls i names ix := {| x_cid := i; x_supers := []; x_crit := CNames names; x_dom := "default_domain";
                                    x_rule := None; x_idx := ix |}.
 (* G1 (index column j) and G2 both serve "r"; GX serves "x" *)
@@ -646,15 +652,16 @@ Proof. repeat split; reflexivity. Qed.
 Definition hm_st := {| p_groups := [hw_cls 2 ["r"] None]; p_fws := [{| fid := 0; froot := 0; favail := true |}] |}.
 Definition hm_late := {| fid := 5; froot := 0; favail := true |}.
 Definition hm_rq a := {| m_api := a; m_collector := None; m_links := None; m_feats := [hw_r] |}.
+Definition hm_nm : fw -> fwname := fun x => x.
 Lemma memo_refuted_l :
-  spec_answers hm_st [Request (hm_rq [0]); DefFw hm_late; Request (hm_rq [5])]
+  spec_answers hm_nm hm_st [Request (hm_rq [AClass 0]); DefFw hm_late; Request (hm_rq [AClass 5])]
     = [RAnswered [((2, [0]), true)]; RAnswered [((2, [5]), true)]] /\
-  snd (run_history (fun _ => id_walk) hm_st [Request (hm_rq [0]); DefFw hm_late; Request (hm_rq [5])])
+  snd (run_history hm_nm (fun _ => id_walk) hm_st [Request (hm_rq [AClass 0]); DefFw hm_late; Request (hm_rq [AClass 5])])
     = [RAnswered [((2, [0]), true)]; RAnswered [((2, [5]), true)]] /\
-  run_memo hm_st [Request (hm_rq [0]); DefFw hm_late; Request (hm_rq [5])]
+  run_memo hm_nm hm_st [Request (hm_rq [AClass 0]); DefFw hm_late; Request (hm_rq [AClass 5])]
     = [RAnswered [((2, [0]), true)]; RRejected (RErr ENoGroup)] /\
   (* ... although the same process answers correctly when nothing was planned before the class appeared *)
-  run_memo hm_st [DefFw hm_late; Request (hm_rq [5])] = [RAnswered [((2, [5]), true)]].
+  run_memo hm_nm hm_st [DefFw hm_late; Request (hm_rq [AClass 5])] = [RAnswered [((2, [5]), true)]].
 Proof. repeat split; reflexivity. Qed.
 
 Lemma id_walk_ok : walk_ok id_walk.
@@ -676,4 +683,16 @@ Proof.
   { unfold survivors, identified, accessible. cbn [filter]. destruct (applicable rq c); [|reflexivity].
     cbn [map filter]. unfold keep at 1. cbn [fst snd]. rewrite Hc. reflexivity. }
   unfold resolve. rewrite P, Hp, S. reflexivity.
+Qed.
+
+(* ================= 9. a feature-level framework given by name ================= *)
+(* outside kf_ffw_name_twins (the name is carried by at most one existing class) the request written with a framework NAME is
+   answered alike under every iteration order of the class sets *)
+Lemma resolve_named_order_l : forall e e' u u' rq fn, Permutation u u' -> env_equiv e e' ->
+  kf_ffw_name_twins e fn = false -> result_equiv (resolve_named e u rq fn) (resolve_named e' u' rq fn).
+Proof.
+  intros e e' u u' rq fn Hu He K. unfold resolve_named. destruct fn as [n|].
+  - rewrite <- (feature_fw_of_name_order_l e e' n); [| apply He | apply He | exact K].
+    destruct (feature_fw_of_name e n) as [x|]; [|cbn; reflexivity]. apply resolve_perm_equiv_l; assumption.
+  - apply resolve_perm_equiv_l; assumption.
 Qed.
